@@ -59,6 +59,21 @@ def as_sbytes(v):
 # ---------------------------------------------------------------------------
 def binop(I, op, a, b, node, inplace=False):
     sx = _sx()
+    if isinstance(a, (set, frozenset)) and isinstance(b, (set, frozenset)) and isinstance(op, (ast.BitOr, ast.BitAnd, ast.Sub, ast.BitXor)) \
+            and not L.any_z3(list(a)) and not L.any_z3(list(b)):
+        # concrete sets: native set algebra
+        import operator
+        return {ast.BitOr: operator.or_, ast.BitAnd: operator.and_, ast.Sub: operator.sub, ast.BitXor: operator.xor}[type(op)](a, b)
+    INFS = (float("inf"), float("-inf"))
+    if (isinstance(a, float) and a in INFS) or (isinstance(b, float) and b in INFS):
+        # arithmetic with an infinity and a finite (possibly symbolic) number
+        if is_num(a) and is_num(b):
+            ai, bi = (a if isinstance(a, float) and a in INFS else None), (b if isinstance(b, float) and b in INFS else None)
+            if isinstance(op, ast.Add) and (ai is None or bi is None or ai == bi):
+                return ai if ai is not None else bi
+            if isinstance(op, ast.Sub) and (ai is None or bi is None or ai != bi):
+                return ai if ai is not None else -bi
+        raise SymError("arithmetic with infinity: " + sx._txt(node))
     if isinstance(a, float):
         a = Fraction(repr(a))
     if isinstance(b, float):
@@ -812,6 +827,10 @@ def call(I, f, args, kwargs, node, fr):
                 c = stubs[key]
             if c is not None:
                 return apply_contract(I, c, [f.__self__] + list(args), kwargs, node)
+            from .methods import concrete as _conc
+            if key == "pdfminer.psparser:PSSymbolTable.intern" and _conc(args, kwargs):
+                # interning a constant name in a real (process-wide) table: the real object (idempotent; scenario 'interning-is-idempotent')
+                return f(*args, **kwargs)
             raise SymError("bound repository method %s needs a contract" % key)
     from . import builtins_model
 
